@@ -87,6 +87,13 @@ CLAIMS = {
          "verified lists). Real CRLs: nine signer kinds x four AKI forms, ten algorithms + RSA-PSS/Ed25519, bit flips over a whole CRL.",
          "Coq proof over the chain-matcher model + real-crypto correspondence", "DESIGN.md §3 C04",
          "RSA/ECDSA verification is idealised in the model (valid only under the signing key over the signed bytes); the real primitives are exercised on every case and mutation, not proved."),
+ "C19": ("Coq theorems over a configuration model whose Caddyfile handler table, pointer/value passing, enum tables and defaults are "
+         "regenerated from caddyfile.go / configparser.go / config.go on every run: C19_caddyfile_eq_json (every sequence of option "
+         "occurrences yields the same raw configuration in both syntaxes), C19_defaults, C19_unknown_values_rejected (for every string), "
+         "C19_unknown_keys_rejected; ~100 assignments (each option alone, every mode with/without everything, configured CRLs under every "
+         "sig x fetch x storage, random subsets, misspelt keys at four levels, invalid values) loaded in both syntaxes and provisioned for real.",
+         "Coq proof over source-generated adapter tables + two-syntax load/provision correspondence", "DESIGN.md §3 C19",
+         "'every valid combination provisions' is exercised by the harness (with C16/C15 covering the provisioning path), not stated as one theorem."),
  "C03": ("Coq theorems C03_table/C03_enabled/C03_iff/C03_effects over a model whose mode table, enable predicates and "
          "VerifyClientCertificate stage list are regenerated from the Go source on every run; plus an exhaustive 1536-cell "
          "table of real handshakes evaluated against the model (vm_compute) and against the property's own wording.",
